@@ -26,7 +26,7 @@ RULE = ("history: 11 operations (same primary / secondary moved by 1e-4 deg "
         "larger primary, that primary moved, magnitude_factor 1 with a "
         "larger secondary, the single pair (first, first), one point "
         "against two points next to it) on one reused Collocator: every "
-        "sequence of length 1..2 (thorough 1..3), then BFS to the fixpoint "
+        "sequence of length 1..3 (thorough 1..4), then BFS to the fixpoint "
         "of the abstract graph.")
 
 # explicit points (id, second, lat, lon); the primed sets are moved by 1e-4
@@ -56,7 +56,12 @@ INITIAL = (None, False)
 
 
 def shards(tier):
-    return [("history", tier, None)]
+    """One shard per first operation (quick: all histories of length 3) or
+    per first two operations (thorough: length 4)."""
+    n = range(len(OPS))
+    if tier == "quick":
+        return [("history", tier, (a,)) for a in n]
+    return [("history", tier, (a, b)) for a in n for b in n]
 
 
 def cfg_of(op):
@@ -167,9 +172,10 @@ class Explorer:
                                finding[1], finding[2], finding[3])
         return finding
 
-    def explore(self, depth):
-        for history in itertools.product(range(len(OPS)), repeat=depth):
-            self.run(history)
+    def explore(self, depth, prefix=()):
+        for rest in itertools.product(range(len(OPS)),
+                                      repeat=depth - len(prefix)):
+            self.run(tuple(prefix) + rest)
         while True:
             todo = [(s, op) for s in sorted(self.reach, key=repr)
                     for op in range(len(OPS)) if (s, op) not in self.graph]
@@ -188,9 +194,11 @@ def run_shard(shard):
     model.install_seam()
     res = driver.ShardResult()
     ex = Explorer(res)
-    ex.explore(2 if shard[1] == "quick" else 3)
-    res.count("states", len(ex.reach))
-    res.count("transitions", len(ex.graph))
+    ex.explore(3 if shard[1] == "quick" else 4, shard[2])
+    for state in ex.reach:
+        res.add("history_states", repr(state))
+    for (state, op) in ex.graph:
+        res.add("history_transitions", repr((state, op)))
     res.count("traces_validated_against_impl", ex.validated)
     res.flag("history_graph_closed", all(
         (s, op) in ex.graph for s in ex.reach for op in range(len(OPS))))
@@ -202,8 +210,11 @@ def run_shard(shard):
 
 
 def finish(tier, merged):
-    return {k: merged.counters.get(k, 0) for k in
-            ("states", "transitions", "traces_validated_against_impl")}
+    return dict(
+        states=len(merged.sets.get("history_states", ())),
+        transitions=len(merged.sets.get("history_transitions", ())),
+        traces_validated_against_impl=merged.counters.get(
+            "traces_validated_against_impl", 0))
 
 
 def replay(case):
